@@ -1865,4 +1865,78 @@ theorem from_trimesh2_moved (hs : LawfulSqrt sq) (ρ : K) (hρ : 0 ≤ ρ) (m : 
 /-- a non-identity unit rotation with a translation for `from_trimesh2_moved` (3-4-5) -/
 example : ((3:ℚ) / 5) * (3 / 5) + (4 / 5) * (4 / 5) = 1 := by norm_num
 
+/-! ### 3-D `from_trimesh` under rigid motions: mass and centre of mass (closed surfaces) -/
+
+/-- the rigid motion `x ↦ M x + t` with `M` the rotation matrix of the quaternion `q` (spec side) -/
+def aff3 (q : Quat K) (t v : V3 K) : V3 K :=
+  ⟨(mulVec3 (@Quat.toMat K (fieldNum K sq) q) v).x + t.x, (mulVec3 (@Quat.toMat K (fieldNum K sq) q) v).y + t.y,
+   (mulVec3 (@Quat.toMat K (fieldNum K sq) q) v).z + t.z⟩
+/-- a triangle moved by the rigid motion -/
+def moveTri3 (q : Quat K) (t : V3 K) (s : Triangle3 K) : Triangle3 K := ⟨aff3 sq q t s.a, aff3 sq q t s.b, aff3 sq q t s.c⟩
+
+/-- signed volumes are invariant under rigid motions (`det M = |q|⁶ = 1`) -/
+theorem vol4_aff3 (q : Quat K) (hq : UnitQ q) (t o a b c : V3 K) :
+    vol4 (aff3 sq q t o) (aff3 sq q t a) (aff3 sq q t b) (aff3 sq q t c) = vol4 o a b c := by
+  rcases q with ⟨i, j, k, w⟩
+  simp only [UnitQ] at hq
+  simp only [vol4, aff3, mulVec3, Quat.toMat, fieldNum_two]
+  linear_combination (((i * i + j * j + k * k + w * w) * (i * i + j * j + k * k + w * w) + (i * i + j * j + k * k + w * w) + 1)
+    * (((a.x - o.x) * ((b.y - o.y) * (c.z - o.z) - (b.z - o.z) * (c.y - o.y))
+   - (b.x - o.x) * ((a.y - o.y) * (c.z - o.z) - (a.z - o.z) * (c.y - o.y))
+   + (c.x - o.x) * ((a.y - o.y) * (b.z - o.z) - (a.z - o.z) * (b.y - o.y))) / 6)) * hq
+
+/-- cone volume and first moment of a rigidly moved triangle list, apex moved along: `V' = V`, `F' = M F + V t` -/
+theorem cone_moved (q : Quat K) (hq : UnitQ q) (t o : V3 K) (ts : List (Triangle3 K)) :
+    coneVol (aff3 sq q t o) (ts.map (moveTri3 sq q t)) = coneVol o ts ∧
+    coneFirst (aff3 sq q t o) (ts.map (moveTri3 sq q t))
+      = ⟨(mulVec3 (@Quat.toMat K (fieldNum K sq) q) (coneFirst o ts)).x + coneVol o ts * t.x,
+         (mulVec3 (@Quat.toMat K (fieldNum K sq) q) (coneFirst o ts)).y + coneVol o ts * t.y,
+         (mulVec3 (@Quat.toMat K (fieldNum K sq) q) (coneFirst o ts)).z + coneVol o ts * t.z⟩ := by
+  induction ts with
+  | nil => exact ⟨rfl, by simp [coneFirst, coneVol, vsum3, mulVec3]⟩
+  | cons s l ih =>
+    obtain ⟨i1, i2⟩ := ih
+    have hv := vol4_aff3 sq q hq t o s.a s.b s.c
+    refine ⟨?_, ?_⟩
+    · simp only [List.map_cons, coneVol_cons, moveTri3, i1, hv]
+    · simp only [List.map_cons, coneFirst_cons, coneVol_cons, moveTri3, i2, hv]
+      generalize vol4 o s.a s.b s.c = v
+      generalize coneFirst o l = F
+      generalize coneVol o l = V
+      simp only [vadd3, aff3, mulVec3]
+      congr 1 <;> ring
+
+/-- closedness is preserved by moving every vertex with the same map -/
+theorem closed3_moved (q : Quat K) (t : V3 K) (ts : List (Triangle3 K)) (hc : Closed3 ts) :
+    Closed3 (ts.map (moveTri3 sq q t)) := by
+  intro E hE
+  let E' : V3 K → V3 K → K := fun p r => E (aff3 sq q t p) (aff3 sq q t r)
+  have h : (ts.map fun s => E' s.a s.b + E' s.b s.c + E' s.c s.a).sum = 0 :=
+    (sum_edges3 E' ts).symm.trans (hc E' (fun p r => hE _ _))
+  rw [sum_edges3, List.map_map]
+  exact h
+
+/-- **3-D TriMesh under a rigid motion, mass and centre (partial: the tensor `M I Mᵀ` is not stated)**: for a closed surface and a
+unit quaternion, `from_trimesh` of the moved mesh returns `zero()` iff the original does, the same mass, and the moved
+centre of mass `M·com + t` — whatever the two vertex averages. -/
+theorem from_trimesh3_moved_partial (ρ : K) (gc gc' : V3 K) (q : Quat K) (hq : UnitQ q) (t : V3 K)
+    (ts : List (Triangle3 K)) (hc : Closed3 ts) :
+    letI := fieldNum K sq
+    (fromTrimesh3Raw ρ gc' (ts.map (moveTri3 sq q t))).map (fun r => (r.1, r.2.1))
+      = (fromTrimesh3Raw ρ gc ts).map (fun r => (aff3 sq q t r.1, r.2.1)) := by
+  have a := from_trimesh3_closed sq ρ gc ⟨0, 0, 0⟩ ts hc
+  have b := from_trimesh3_closed sq ρ gc' (aff3 sq q t ⟨0, 0, 0⟩) _ (closed3_moved sq q t ts hc)
+  obtain ⟨e1, e2⟩ := cone_moved sq q hq t ⟨0, 0, 0⟩ ts
+  simp only at a b
+  rw [a, b, e1, e2]
+  by_cases hV : coneVol (⟨0, 0, 0⟩ : V3 K) ts = 0
+  · simp only [hV, if_true, Option.map_none]
+  · simp only [hV, if_false, Option.map_some, Option.some.injEq, Prod.mk.injEq, and_true]
+    generalize coneFirst (⟨0, 0, 0⟩ : V3 K) ts = F at *
+    generalize coneVol (⟨0, 0, 0⟩ : V3 K) ts = V at *
+    simp only [aff3, mulVec3]
+    congr 1 <;> (field_simp)
+/-- a unit quaternion with a non-trivial rotation for `from_trimesh3_moved_partial` -/
+example : UnitQ (⟨2 / 3, 1 / 3, 2 / 3, 0⟩ : Quat ℚ) := by norm_num [UnitQ]
+
 end C13
